@@ -59,6 +59,7 @@ impl NsReader {
                     p.1 is Eof && final(self).remaining@ == old(self).remaining@ && final(self).log@ == old(self).log@.push(Item::Ev(p.0, p.1))
                 } else {
                     p == old(self).remaining@[0] && final(self).remaining@ == old(self).remaining@.skip(1)
+                    && final(self).remaining@.len() == old(self).remaining@.len() - 1
                     && final(self).log@ == old(self).log@.push(Item::Ev(p.0, p.1))
                 },
             Err(_) => final(self).remaining@.len() <= old(self).remaining@.len() && is_prefix(old(self).log@, final(self).log@),
@@ -70,14 +71,25 @@ pub open spec fn is_prefix(a: Seq<Item>, b: Seq<Item>) -> bool { a.len() <= b.le
 // the items consumed since the log was `l0`
 pub open spec fn seg_of(l0: Seq<Item>, l: Seq<Item>) -> Seq<Item> { l.subrange(l0.len() as int, l.len() as int) }
 
+pub broadcast proof fn lemma_prefix_push(l0: Seq<Item>, l: Seq<Item>, it: Item)
+    requires is_prefix(l0, l),
+    ensures #[trigger] is_prefix(l0, l.push(it)),
+{
+}
 pub broadcast proof fn lemma_seg_push(l0: Seq<Item>, l: Seq<Item>, it: Item)
     requires is_prefix(l0, l),
-    ensures #[trigger] seg_of(l0, l.push(it)) =~= seg_of(l0, l).push(it), #[trigger] is_prefix(l0, l.push(it)),
+    ensures #[trigger] seg_of(l0, l.push(it)) == seg_of(l0, l).push(it),
+{
+    assert(seg_of(l0, l.push(it)) =~= seg_of(l0, l).push(it));
+}
+pub broadcast proof fn lemma_prefix_refl(l0: Seq<Item>)
+    ensures #[trigger] is_prefix(l0, l0),
 {
 }
 pub broadcast proof fn lemma_seg_refl(l0: Seq<Item>)
-    ensures #[trigger] seg_of(l0, l0) =~= Seq::<Item>::empty(), #[trigger] is_prefix(l0, l0),
+    ensures #[trigger] seg_of(l0, l0) == Seq::<Item>::empty(),
 {
+    assert(seg_of(l0, l0) =~= Seq::<Item>::empty());
 }
 pub broadcast proof fn lemma_prefix_trans(a: Seq<Item>, b: Seq<Item>, c: Seq<Item>)
     requires #[trigger] is_prefix(a, b), #[trigger] is_prefix(b, c),
@@ -85,3 +97,8 @@ pub broadcast proof fn lemma_prefix_trans(a: Seq<Item>, b: Seq<Item>, c: Seq<Ite
 {
     assert(c.subrange(0, a.len() as int) =~= b.subrange(0, a.len() as int));
 }
+pub broadcast group xml_log_lemmas { lemma_prefix_push, lemma_seg_push, lemma_prefix_refl, lemma_seg_refl }
+
+// R11: `E == b"lit"` on byte slices: std PartialEq for slices = same length and elementwise equal
+#[verifier::external_body]
+pub fn bytes_eq(a: &[u8], b: &[u8]) -> (r: bool) ensures r == (a@ == b@) { unimplemented!() }
